@@ -150,6 +150,21 @@ def check_run(r, info, ff, opts, tag, n_ends=None, cyclic=False):
         else:
             if n_missed:
                 all_assigned = False
+    # every residue the harness built must be a residue of the model
+    model_keys = {}
+    for res, _q, _m in per_res:
+        k = (res.res_seq, res.ins_code)
+        model_keys[k] = model_keys.get(k, 0) + 1
+    built = {}
+    for i in info:
+        k = (i["res_seq"], i.get("icode", ""))
+        built[k] = built.get(k, 0) + 1
+    for k, n in built.items():
+        if model_keys.get(k, 0) != n:
+            viol.append((f"C02/{tag}/{ff}/built-residue-count-differs",
+                         {"residue": k, "built": n,
+                          "in_model": model_keys.get(k, 0)}))
+            break
     for cid, q in strand_q.items():
         if q is None:
             continue
